@@ -4,23 +4,12 @@
    predictive recogniser BornoGrammar: the text is accepted iff it has no lexical diagnostic and the recogniser
    accepts; otherwise, when there is no lexical error, the first diagnostic must name the line of the first offending
    token (or of the end of input). *)
-EXTENDS BornoLex, BornoGrammar, SequencesExt
+EXTENDS BornoLex, BornoFront, SequencesExt
 CONSTANTS MaxFrag, MaxKwFrag, EmitOn
 
 CharFrags == { <<c>> : c \in (DOMAIN Op1) \cup {QUOTE, NL, SP, 97, 2453, 2494, 48, 2543, 64} }
              \cup { <<47, 42>>, <<42, 47>>, <<47, 47>> }
 KwFrags   == { Keyword[k] : k \in KeywordTypes } \cup { Builtin["len"], ReservedExtra }
-
-KwName(ty) == CASE ty = "FUN" -> "fun" [] ty = "VAR" -> "var" [] ty = "FOR" -> "for" [] ty = "IF" -> "if" [] ty = "ELSE" -> "else" [] ty = "WHILE" -> "while"
-                [] ty = "TRUE" -> "true" [] ty = "FALSE" -> "false" [] ty = "NIL" -> "nil" [] ty = "PRINT" -> "print" [] ty = "RETURN" -> "return"
-                [] ty = "BREAK" -> "break" [] ty = "CONTINUE" -> "continue" [] ty = "LOGICAL_AND" -> "and" [] ty = "LOGICAL_OR" -> "or"
-SymName(lex) == IF \E b \in BuiltinNames : Builtin[b] = lex THEN CHOOSE b \in BuiltinNames : Builtin[b] = lex
-                ELSE IF lex = ReservedExtra THEN "input_ascii" ELSE "x"
-GTok(tk) == CASE tk.ty = "IDENTIFIER" -> IdT(SymName(tk.lex))
-              [] tk.ty = "NUMBER" -> [t |-> "num", x |-> tk.lit.n]
-              [] tk.ty = "STRING" -> [t |-> "str", x |-> "s"]
-              [] tk.ty \in KeywordTypes /\ tk.lex \in { Keyword[k] : k \in KeywordTypes } -> Kw(KwName(tk.ty))
-              [] OTHER -> Op(CpsStr(tk.lex))      \* operators, including the symbol spellings && and ||
 
 Init == text = <<>> /\ nfr = 0 /\ phase = "build" /\ pos = 1 /\ line = 1 /\ toks = <<>> /\ diags = <<>>
 Extend == /\ nfr < MaxFrag
